@@ -1195,6 +1195,10 @@ func buildHistory(dir string, r *rand.Rand, count func(string)) *histRepo {
 			}
 			tree = tr
 			step += 6000
+			if r.Intn(2) == 0 { // … and the old revision is the merge commit itself
+				h.oldRev, _ = proj.Git(dir, 0, "rev-parse", "HEAD")
+				count("topology:+old-is-the-merge-commit")
+			}
 			if _, err = commitN(1+r.Intn(2), all, 0, next); err != nil {
 				return fail(err)
 			}
@@ -1221,7 +1225,7 @@ func streamDiffHistories(s *stream.Stream, c *streamCtx) error {
 	s.Rule = fmt.Sprintf("%d random histories in real git repositories (git CLI, explicit commit dates): 3-7 line-oriented .go files of 3-20 lines over a 6-line alphabet with repeated lines mixed with unique lines (4%% without trailing newline), "+
 		"test / vendor / testdata / non-Go decoys; 1-3 edits per commit drawn from modify/insert/delete lines, rename, rename+edit, new file, delete file, decoy edits; topologies linear, linear with all commits in the same second, "+
 		"pull request (feature branch merged with --no-ff) with feature commits older / newer than the stable tip / same second / forked after the old revision, commits after the merge, diverged branches (old not an ancestor; precision 1 only compared, not judged); "+
-		"loose and `git gc`-packed stores (packed: 1 thread, go-git's pack index is not goroutine-safe) × precision 1, 2, 3, INIT through the real getDiff (hook); model fed with go-git's chunks / blame + commit table; "+
+		"loose and `git gc`-packed stores × precision 1, 2, 3, INIT through the real getDiff (hook); model fed with go-git's chunks / blame + commit table; "+
 		"judge:diff against git cat-file contents for every .go file of the new revision; non-trivial = an eligible file that the implementation reports", n)
 	seeds := make([]int64, n)
 	for i := range seeds {
@@ -1253,7 +1257,7 @@ func streamDiffHistories(s *stream.Stream, c *streamCtx) error {
 				return fmt.Errorf("history %d (%s): %v", i, h.topo, h.err)
 			}
 			threads := 1
-			if !h.packed && i%2 == 0 {
+			if i%2 == 0 { // loose and packed alike: object reads are serialised since fix 11c0d4a
 				threads = 4
 			}
 			if err := emitRepoAllModes(s, h.dir, h.oldRev, h.ancestor, fmt.Sprintf("h%05d/%s", i, h.topo), []string{"1", "2", "3", "I"}, threads); err != nil {
@@ -1351,7 +1355,7 @@ func buildExactHistory(dir string, r *rand.Rand, count func(string)) *histRepo {
 		return proj.Commit(dir, tree, date, "c")
 	}
 	var err error
-	h.topo = []string{"linear", "linear", "linear", "pr-older", "pr-newer"}[r.Intn(5)]
+	h.topo = []string{"linear", "linear", "linear", "pr-older", "pr-newer", "merged-old", "merged-old"}[r.Intn(7)]
 	count("topology:" + h.topo)
 	if h.topo == "linear" {
 		h.oldRev, _ = proj.Git(dir, 0, "rev-parse", "HEAD")
@@ -1404,6 +1408,27 @@ func buildExactHistory(dir string, r *rand.Rand, count func(string)) *histRepo {
 		if _, err = proj.Git(dir, t0+5000, "merge", "-q", "--no-ff", "-m", "merge", "feature"); err != nil {
 			return fail(err)
 		}
+		if h.topo == "merged-old" {
+			// the old revision is the merge commit (or a descendant of it): the lines written on the
+			// merged side branch reach it through the second parent and are old, not new
+			tr, err := gitTree(dir, "HEAD")
+			if err != nil {
+				return fail(err)
+			}
+			tree = tr
+			step = 6000
+			h.oldRev, _ = proj.Git(dir, 0, "rev-parse", "HEAD")
+			for i := r.Intn(2); i > 0; i-- {
+				if h.oldRev, err = commit(all, next()); err != nil {
+					return fail(err)
+				}
+			}
+			for i := 1 + r.Intn(3); i > 0; i-- {
+				if _, err = commit(all, next()); err != nil {
+					return fail(err)
+				}
+			}
+		}
 	}
 	if r.Intn(2) == 0 {
 		h.packed = true
@@ -1455,7 +1480,7 @@ func streamDiffExact(s *stream.Stream, c *streamCtx) error {
 				return fmt.Errorf("exact history %d (%s): %v", lo+i, h.topo, h.err)
 			}
 			threads := 1
-			if !h.packed && i%2 == 0 {
+			if i%2 == 0 { // loose and packed alike: object reads are serialised since fix 11c0d4a
 				threads = 4
 			}
 			if err := emitRepoModes(s, h.dir, h.oldRev, true, true, fmt.Sprintf("x%05d/%s", lo+i, h.topo), []string{"1", "2", "3"}, threads); err != nil {
